@@ -227,11 +227,11 @@ func (h *handler) OnTraffic(c gnet.Conn) gnet.Action {
 		// address given, not to the connected peer; oracle only (not part of the model)
 		data := append([]byte("3RD:"), h.payload(h.rnd.Pick([]int{0, 5, 40}))...)
 		h.rec.mu.Lock()
-		h.rec.suppress = true
+		h.rec.suppressBy[goid()] = true
 		h.rec.mu.Unlock()
 		_, err := c.SendTo(data, h.third.LocalAddr())
 		h.rec.mu.Lock()
-		h.rec.suppress = false
+		delete(h.rec.suppressBy, goid())
 		h.rec.mu.Unlock()
 		if err == nil {
 			h.mu.Lock()
@@ -243,11 +243,11 @@ func (h *handler) OnTraffic(c gnet.Conn) gnet.Action {
 		// SendTo is a datagram operation: on a stream connection it is refused and nothing is written
 		// (a byte on the wire would show up in the outbound stream oracle); oracle only
 		h.rec.mu.Lock()
-		h.rec.suppress = true
+		h.rec.suppressBy[goid()] = true
 		h.rec.mu.Unlock()
 		n, err := c.SendTo([]byte("not-for-streams"), &net.UDPAddr{IP: net.IPv4(127, 0, 0, 1), Port: 9})
 		h.rec.mu.Lock()
-		h.rec.suppress = false
+		delete(h.rec.suppressBy, goid())
 		h.rec.mu.Unlock()
 		if err == nil || n != 0 {
 			h.rec.Fail("udp-reply", "sendto-on-stream", fmt.Sprintf("SendTo on a stream connection returned (%d, %v)", n, err))
@@ -340,7 +340,7 @@ func (h *handler) onUDP(c gnet.Conn) gnet.Action {
 		if h.rnd.Chance(5) {
 			// an address SendTo cannot convert is refused with an error, never a panic, and nothing is sent
 			h.rec.mu.Lock()
-			h.rec.suppress = true
+			h.rec.suppressBy[goid()] = true
 			h.rec.mu.Unlock()
 			bad := []net.Addr{&net.UnixAddr{Net: "bogus", Name: "/x"}, &net.UDPAddr{IP: net.IP{1, 2, 3}, Port: 1}, &net.IPAddr{IP: net.IPv4(127, 0, 0, 1)}}
 			var n int
@@ -348,7 +348,7 @@ func (h *handler) onUDP(c gnet.Conn) gnet.Action {
 			ba := bad[h.rnd.Intn(len(bad))]
 			panicked, msg := tr.Guard(func() { n, err = c.SendTo([]byte("x"), ba) })
 			h.rec.mu.Lock()
-			h.rec.suppress = false
+			delete(h.rec.suppressBy, goid())
 			h.rec.mu.Unlock()
 			if panicked {
 				h.rec.Fail("udp-reply", "sendto-bad-address-panics", msg)
@@ -363,11 +363,11 @@ func (h *handler) onUDP(c gnet.Conn) gnet.Action {
 				ua.IP = ua.IP.To16()
 				data := h.payload(h.rnd.Pick([]int{0, 1, 33}))
 				h.rec.mu.Lock()
-				h.rec.suppress = true
+				h.rec.suppressBy[goid()] = true
 				h.rec.mu.Unlock()
 				_, err := c.SendTo(data, ua)
 				h.rec.mu.Lock()
-				h.rec.suppress = false
+				delete(h.rec.suppressBy, goid())
 				h.rec.mu.Unlock()
 				if err == nil {
 					h.mu.Lock()
@@ -779,11 +779,11 @@ func (h *handler) doCall(ci *connInfo, call string, n int, data []byte, cb bool)
 		// Conn.Dup hands a descriptor to the user: oracle only (no model line); it stays open until the
 		// end of the case, so the socket outlives the connection's own descriptor
 		rec.mu.Lock()
-		rec.suppress = true
+		rec.suppressBy[goid()] = true
 		rec.mu.Unlock()
 		fd, err := c.Dup()
 		rec.mu.Lock()
-		rec.suppress = false
+		delete(rec.suppressBy, goid())
 		if err == nil {
 			delete(rec.owned, fd)
 			rec.userFds = append(rec.userFds, fd)
